@@ -137,6 +137,9 @@ def run(ctx, report: Report) -> None:
                     elif isinstance(a, ast.Name) and _from_split_namespace(mod, c, a.id):
                         verdict, why = True, ('local name of a NamespacedAttribute: reached only when its namespace is not None, and '
                                               'bs4 sets name together with namespace (reviewed)')
+                    elif isinstance(a, ast.Name) and _param_never_none(ctx, mn, mod, c, a.id):
+                        verdict, why = True, ('a parameter: every call site in the package passes a value whose static type excludes None, a value '
+                                              'yielded by iter_attributes, or the local name of a NamespacedAttribute (reviewed, as above)')
                     else:
                         verdict, why = False, f'static type {tf.show(t)} includes None'
                 else:
@@ -336,6 +339,41 @@ def _from_iter_attributes(mod, call, name):
                 (call_name(n.iter).endswith('iter_attributes') or call_name(n.iter).endswith('.items')):
             return True
     return False
+
+
+def _param_never_none(ctx, mn, mod, call, name, depth=0):
+    """`name` is a parameter of the function that encloses `call`; is it bound to a non-None value at every call site of that
+    function in the module (static type without None, a key yielded by iter_attributes, a split_namespace name, or - up to three
+    levels - a parameter for which the same holds)?"""
+    tf = ctx.types
+    fn_q = mod.enclosing_function(call)
+    fn = mod.functions.get(fn_q) if fn_q else None
+    if fn is None or depth > 3:
+        return False
+    params = [a.arg for a in fn.args.args]
+    if name not in params:
+        return False
+    pos = params.index(name)
+    is_method = bool(params) and params[0] in ('self', 'cls')
+    sites = 0
+    for c in ast.walk(mod.tree):
+        if not (isinstance(c, ast.Call) and isinstance(c.func, (ast.Attribute, ast.Name))
+                and (c.func.attr if isinstance(c.func, ast.Attribute) else c.func.id) == fn.name):
+            continue
+        i = pos - (1 if is_method and isinstance(c.func, ast.Attribute) else 0)
+        arg = c.args[i] if 0 <= i < len(c.args) and not any(isinstance(x, ast.Starred) for x in c.args[:i + 1]) else next(
+            (k.value for k in c.keywords if k.arg == name), None)
+        if arg is None:
+            return False
+        sites += 1
+        t = tf.type_of(mn, arg)
+        if t is not None and not tf.may_be_none(t):
+            continue
+        if isinstance(arg, ast.Name) and (_from_split_namespace(mod, c, arg.id) or _from_iter_attributes(mod, c, arg.id)
+                                          or _param_never_none(ctx, mn, mod, c, arg.id, depth + 1)):
+            continue
+        return False
+    return sites > 0
 
 
 def _from_split_namespace(mod, call, name):
